@@ -19,6 +19,7 @@ type countCmp struct {
 	phi     *ssa.Phi // the record counter (self-incrementing loop-header phi, or a slice grown by append and measured with len)
 	reached int      // successor index of the If on which "counter >= count" is known
 	constB  bool     // the other operand is a constant (a fixed trip count, not a declared record count)
+	lb      int64    // on the reached side: counter >= other + lb   (offsets of both operands and the operator folded in)
 }
 
 type fnInfo struct {
@@ -31,6 +32,7 @@ type fnInfo struct {
 	cmps     map[*ssa.If]countCmp      // count comparisons
 	cells    map[*ssa.Alloc]bool       // allocs only stored to / loaded from
 	strict   map[*ssa.Alloc]bool       // … and not captured by a function literal
+	recCtr   map[*ssa.Phi]*recInfo     // PRE-3 memo
 	errRes   int                       // index of the last result if it is an error, else -1
 	boolRes  int                       // index of the last result if it is a bool (and there is no error result), else -1
 	sites    []*site
@@ -42,7 +44,7 @@ func (a *analysis) info(fn *ssa.Function) *fnInfo {
 		return fi
 	}
 	fi := &fnInfo{fn: fn, name: a.p.FuncName(fn), loopKey: map[*ssau.Loop]string{}, counters: map[*ssa.Phi]*ssau.Loop{},
-		exitCtl: map[*ssau.Loop][]*ssa.Phi{}, cmps: map[*ssa.If]countCmp{}, cells: map[*ssa.Alloc]bool{}, strict: map[*ssa.Alloc]bool{},
+		exitCtl: map[*ssau.Loop][]*ssa.Phi{}, cmps: map[*ssa.If]countCmp{}, cells: map[*ssa.Alloc]bool{}, strict: map[*ssa.Alloc]bool{}, recCtr: map[*ssa.Phi]*recInfo{},
 		errRes: -1, boolRes: -1, siteOf: map[*ssa.Call]*site{}}
 	a.infos[fn] = fi
 	idx, isErr, isBool := lastResult(fn.Signature)
@@ -255,6 +257,32 @@ func (fi *fnInfo) counterOf(v ssa.Value, depth int) *ssa.Phi {
 	return nil
 }
 
+// counterOff: v == phi + off for the ±constant chain above the counter phi (len(append…) counts as +0).
+func counterOff(v ssa.Value, depth int) int64 {
+	if depth > 6 {
+		return 0
+	}
+	switch x := v.(type) {
+	case *ssa.Convert:
+		return counterOff(x.X, depth+1)
+	case *ssa.ChangeType:
+		return counterOff(x.X, depth+1)
+	case *ssa.BinOp:
+		if x.Op == token.ADD || x.Op == token.SUB {
+			if k, isC := ssau.ConstInt(x.Y); isC {
+				if x.Op == token.SUB {
+					k = -k
+				}
+				return counterOff(x.X, depth+1) + k
+			}
+			if k, isC := ssau.ConstInt(x.X); isC && x.Op == token.ADD {
+				return counterOff(x.Y, depth+1) + k
+			}
+		}
+	}
+	return 0
+}
+
 // countCompare recognises `counter OP count` (either operand order, optional
 // negation) and says on which side of the branch counter >= count is known.
 func (fi *fnInfo) countCompare(cond ssa.Value) (countCmp, bool) {
@@ -314,12 +342,131 @@ func (fi *fnInfo) countCompare(cond ssa.Value) (countCmp, bool) {
 	if reachedOnTrue {
 		r = 0
 	}
-	other := b.Y
+	other, cexpr := b.Y, b.X
 	if phi == py {
-		other = b.X
+		other, cexpr = b.X, b.Y
 	}
 	_, constB := other.(*ssa.Const)
-	return countCmp{phi: phi, reached: r, constB: constB}, true
+	// counter + a  REL  other' + bo  holds on the reached side, REL being >= (l = 0) or > (l = 1)
+	var l int64
+	if op == token.LEQ || op == token.GTR {
+		l = 1
+	}
+	var bo int64
+	if _, o, ok := affine(other, 0); ok {
+		bo = o
+	}
+	return countCmp{phi: phi, reached: r, constB: constB, lb: bo - counterOff(cexpr, 0) + l}, true
+}
+
+// recInfo (PRE-3): is a loop counter a *record* counter — starts at a known value c0, steps by exactly
+// one, and every iteration that increments it stores a record (element store into a pre-sized array,
+// append, or a call that is handed the counter)? Only then does "counter >= count + c0" prove that
+// `count` records were read.
+type recInfo struct {
+	ok  bool
+	c0  int64
+	why string
+}
+
+func (r *recInfo) describe(a *analysis, cc countCmp) string {
+	name := nameOfPhi(cc.phi)
+	if !r.ok {
+		return "the counter '" + name + "' compared with the declared count is not a record counter: it " + r.why
+	}
+	return "the comparison proves only '" + name + "' >= count" + signed(cc.lb) + " while '" + name + "' starts at " + itoa(int(r.c0)) +
+		": it holds already when a record is missing"
+}
+
+func signed(k int64) string {
+	if k == 0 {
+		return ""
+	}
+	if k > 0 {
+		return "+" + itoa(int(k))
+	}
+	return itoa(int(k))
+}
+
+func (a *analysis) recordCounter(fi *fnInfo, p *ssa.Phi) *recInfo {
+	if r, ok := fi.recCtr[p]; ok {
+		return r
+	}
+	r := &recInfo{}
+	fi.recCtr[p] = r
+	l := fi.counters[p]
+	if l == nil {
+		r.why = "is not a loop counter"
+		return r
+	}
+	_, isSlice := p.Type().Underlying().(*types.Slice)
+	first := true
+	for i, pred := range l.Header.Preds {
+		if l.Blocks[pred] {
+			continue
+		}
+		var c0 int64
+		if isSlice {
+			if !emptySlice(p.Edges[i]) {
+				r.why = "starts from a slice that is not known to be empty"
+				return r
+			}
+		} else {
+			k, isC := ssau.ConstInt(p.Edges[i])
+			if !isC {
+				r.why = "does not start from a constant"
+				return r
+			}
+			c0 = k
+		}
+		if !first && c0 != r.c0 {
+			r.why = "has several start values"
+			return r
+		}
+		r.c0, first = c0, false
+	}
+	e := a.newExplorer(fi, modePRE2)
+	e.pre2ctr = p
+	e.fillArr = map[ssa.Value]bool{}
+	ssau.AllInstrs(fi.fn, func(in ssa.Instruction) {
+		if ms, ok := in.(*ssa.MakeSlice); ok && !l.Blocks[ms.Block()] {
+			if _, isConst := ms.Len.(*ssa.Const); !isConst {
+				e.fillArr[ms] = true
+			}
+		}
+	})
+	e.runFill(l)
+	switch {
+	case e.overflow:
+		r.why = "could not be followed (budget)"
+	case len(e.badCycles) > 0:
+		r.why = e.badCycles[0].how
+	default:
+		r.ok = true
+	}
+	return r
+}
+
+func emptySlice(v ssa.Value) bool {
+	switch x := v.(type) {
+	case *ssa.Const:
+		return x.Value == nil
+	case *ssa.MakeSlice:
+		k, ok := ssau.ConstInt(x.Len)
+		return ok && k == 0
+	case *ssa.Slice:
+		if x.High != nil {
+			if k, ok := ssau.ConstInt(x.High); ok && k == 0 {
+				return true
+			}
+		}
+		if pt, ok := x.X.Type().Underlying().(*types.Pointer); ok {
+			if at, ok := pt.Elem().Underlying().(*types.Array); ok && at.Len() == 0 {
+				return true
+			}
+		}
+	}
+	return false
 }
 
 func (fi *fnInfo) loopsContaining(b *ssa.BasicBlock) []*ssau.Loop {
@@ -478,6 +625,8 @@ type explorer struct {
 	countless bool               // the function belongs to a format that declares no record count (spec table)
 	stale     map[ssa.Value]bool // buffers handed to the seed call: their content is not input after the failed read
 	fillArr   map[ssa.Value]bool // PRE-2: the pre-sized arrays of the fill loop
+	pre2ctr   *ssa.Phi           // PRE-3: the one counter whose increments must each store a record (nil: see pre2set)
+	pre2set   map[*ssa.Phi]bool  // PRE-2: the counters that bound the loop or subscript the stores (a line counter kept for messages is neither)
 
 	// IO-4: header states reached without progress, and the edges between them
 	roots map[string]*rootNode
@@ -492,6 +641,7 @@ type explorer struct {
 	badCycles  []badCycle
 	okReturns  int
 	okFacts    map[string]bool
+	weakCount  string // PRE-3: why a counter-vs-count comparison on the path did not discharge the return
 }
 
 type rootNode struct {
@@ -861,15 +1011,28 @@ func (e *explorer) cycle(latch *ssa.BasicBlock, st *state) {
 	if e.mode == modePRE2 {
 		counted := false
 		for c, cl := range e.fi.counters {
-			if cl != e.loop {
+			if cl != e.loop || (e.pre2ctr != nil && c != e.pre2ctr) || (e.pre2ctr == nil && e.pre2set != nil && !e.pre2set[c]) {
 				continue
 			}
-			if r, ok := e.evalRel(c.Edges[pi], st, 0); ok && r.base == c && r.adv() {
+			r, ok := e.evalRel(c.Edges[pi], st, 0)
+			if e.pre2ctr != nil {
+				// PRE-3: the counter steps by exactly one (or stays) and never takes an unrelated value
+				_, isSlice := c.Type().Underlying().(*types.Slice)
+				switch {
+				case !ok || r.base != c:
+					e.badCycles = append(e.badCycles, badCycle{latch: latch, how: "is re-assigned from an unrelated value"})
+					return
+				case !isSlice && (r.far || (r.off != 0 && r.off != 1)):
+					e.badCycles = append(e.badCycles, badCycle{latch: latch, how: "does not step by exactly one"})
+					return
+				}
+			}
+			if ok && r.base == c && r.adv() {
 				counted = true
 			}
 		}
 		if counted && !st.stored {
-			e.badCycles = append(e.badCycles, badCycle{latch: latch})
+			e.badCycles = append(e.badCycles, badCycle{latch: latch, how: "is incremented on a path that stores no record"})
 		}
 		return
 	}
@@ -1074,11 +1237,34 @@ func (e *explorer) block(it item) {
 				st.stored = true // PRE-2: the iteration recorded data
 				continue
 			}
+			if ssau.Builtin(in) == "copy" && len(in.Call.Args) == 2 {
+				st.wrote = true
+				dst := in.Call.Args[0]
+				for d := 0; d < 4; d++ {
+					sl, ok := dst.(*ssa.Slice)
+					if !ok {
+						break
+					}
+					dst = sl.X
+				}
+				if e.fillArr[dst] {
+					st.stored = true
+				}
+				continue
+			}
 			if e.seed != nil && e.seed.kind == kBool && e.seed.prim {
 				// the token accessors of the scanner whose Scan() just failed
 				if obj := ssau.CalleeObj(in); obj != nil && obj.Pkg() != nil && obj.Pkg().Path() == "bufio" && recvName(obj) == "Scanner" &&
 					(obj.Name() == "Text" || obj.Name() == "Bytes") && len(in.Call.Args) > 0 && len(e.seed.call.Call.Args) > 0 && in.Call.Args[0] == e.seed.call.Call.Args[0] {
 					st.wrote = true
+				}
+			}
+			if e.pre2ctr != nil && ssau.Builtin(in) == "" {
+				// the record is handed to a helper together with its index
+				for _, arg := range in.Call.Args {
+					if fi := e.fi; fi.counterOf(arg, 0) == e.pre2ctr {
+						st.stored = true
+					}
 				}
 			}
 			s := e.fi.siteOf[in]
@@ -1119,7 +1305,11 @@ func (e *explorer) block(it item) {
 			c := e.eval(in.Cond, st)
 			take := func(k int, s2 *state) {
 				if cc, ok := e.fi.cmps[in]; ok && e.ctrs[cc.phi] && !cc.constB && cc.reached == k && !s2.reentered {
-					s2.countReached = true
+					if rc := e.a.recordCounter(e.fi, cc.phi); rc.ok && cc.lb >= rc.c0 {
+						s2.countReached = true
+					} else {
+						e.weakCount = rc.describe(e.a, cc)
+					}
 				}
 				e.goTo(b, b.Succs[k], s2)
 			}
